@@ -230,7 +230,8 @@ func runC08(env *lib.Env, rep *lib.Report) {
 	ops := []string{"insert", "update"}
 	journeys := []string{"cache->flush(tiny cache)->restart", "crash-recovery-from-log", "multi-page table: updates of first/middle/last rows, flush, eviction, re-selection, restart",
 		"long SQL text: 40-row INSERTs of multi-byte strings shifted byte by byte across the scanner's refill boundaries",
-		"table of 60 rows (15 leaves) under an 8-page cache, all pages clean: updates of the first, a middle and the last row, read back at once, after a flush and after restart"}
+		"table of 60 rows (15 leaves) under an 8-page cache, all pages clean: updates of the first, a middle and the last row, read back at once, after a flush and after restart",
+		"a catalog wider than the 8-page cache (ten four-column tables besides v): every statement's catalog look-up turns the whole cache over; each value inserted / updated, read back at once, after a flush and after restart"}
 	rep.Bounds["schemas"] = fmt.Sprintf("%d (all orders of 1..3 columns (thorough: 1..4) over int, bigint, varchar, boolean)", len(schemas))
 	rep.Bounds["column names"] = "k0,k1,..; and (schemas of >= 2 columns, journeys 0 and 1) ab, AB, Ab, aB - names that differ only in letter case"
 	rep.Bounds["supply paths"] = paths
@@ -256,6 +257,14 @@ func runC08(env *lib.Env, rep *lib.Report) {
 				c08WideTable(c, types[0], path)
 			} else {
 				c.Tag("journey-4-is-update-of-one-column-schemas-only")
+			}
+			return
+		}
+		if journey == 5 {
+			if len(types) == 1 {
+				c08WideCatalog(c, types[0], path, op)
+			} else {
+				c.Tag("journey-5-is-one-column-schemas-only")
 			}
 			return
 		}
@@ -516,6 +525,91 @@ func c08WideTable(c *lib.Ctx, typ, path string) {
 			return
 		}
 		if !w.tick() || !c08Compare(w, expect, fmt.Sprintf("after the flush that follows the update of row %d", pos)) {
+			return
+		}
+	}
+	rs := w.sess.RelationService
+	if err := guard(func() error { return w.sess.Close() }); err != nil {
+		w.failErr("close-failed", "Session.Close", err)
+		return
+	}
+	storage.VerifMarkClosed(rs)
+	w = w.recoverFrom(w.image(), false)
+	if c.Failed() {
+		return
+	}
+	c08Compare(w, expect, "after clean restart")
+}
+
+// c08WideCatalog: ten four-column tables are declared before v, so that the catalog alone (page table and schema
+// table, a dozen pages) is larger than the 8-page cache: whatever a statement fetched before it looked its table up is
+// evicted by the look-up. Every valid value is inserted (op insert) or written over the single row (op update) and
+// read back at once, after a timer flush and - at the end - after a clean restart.
+func c08WideCatalog(c *lib.Ctx, typ, path, op string) {
+	w := newWorld(c, worldOpt{})
+	defer func() { w.destroy() }()
+	for i := 0; i < 10; i++ {
+		if err := w.exec(fmt.Sprintf("CREATE TABLE filler%d (a int, b bigint, c varchar(255), d boolean)", i)); err != nil {
+			w.failErr("create-failed", "CREATE TABLE filler", err)
+			return
+		}
+	}
+	if err := w.exec("CREATE TABLE v (" + colDDL(mCol{"k0", typ}) + ")"); err != nil {
+		w.failErr("create-failed", "CREATE TABLE v", err)
+		return
+	}
+	if !w.tick() {
+		return
+	}
+	storage.VerifReplaceCache(w.sess.RelationService, 8)
+	storage.VerifSetCacheCap(8)
+	c.NonTrivial()
+	c.Class(fmt.Sprintf("%s/%s/%s/wide-catalog", typ, path, op))
+	var expect [][]any
+	if op == "update" {
+		v, l := c08Default(typ, 1)
+		if err := w.exec(fmt.Sprintf("INSERT INTO v VALUES (%s)", l)); err != nil {
+			w.failErr("insert-failed", "seed row", err)
+			return
+		}
+		expect = [][]any{{v}}
+		if !w.tick() {
+			return
+		}
+	}
+	n := 0
+	for _, v := range c08Values(typ, false) {
+		if s, isStr := v.v.(string); !v.ok || isStr && len(s) == 1 && n > 3 || path == "sqltext" && (v.sqlLit == "" || v.v == nil) {
+			continue
+		}
+		n++
+		var err error
+		switch {
+		case op == "insert" && path == "direct":
+			q := sql.InsertStatement{TableName: "v"}
+			q.QueryExpression = sql.TableValueConstructor{TableValueConstructorList: []sql.RowValueConstructor{{RowValueConstructorList: []any{v.v}}}}
+			err = guard(func() error { _, e := EvaluateInsert(q, w.sess.RelationService); return e })
+		case op == "insert":
+			err = w.exec(fmt.Sprintf("INSERT INTO v VALUES (%s)", v.sqlLit))
+		case path == "direct":
+			q := sql.UpdateStatementSearched{TableName: "v", Set: []sql.SetClause{{ObjectColumn: "k0", UpdateSource: v.v}}}
+			err = guard(func() error { return EvaluateUpdate(q, w.sess.RelationService) })
+		default:
+			err = w.exec(fmt.Sprintf("UPDATE v SET k0 = %s", v.sqlLit))
+		}
+		if err != nil {
+			w.failErr("valid-value-refused", fmt.Sprintf("%s of %s", op, clipAny(v.v)), err)
+			return
+		}
+		if op == "insert" {
+			expect = append(expect, []any{v.v})
+		} else {
+			expect[0][0] = v.v
+		}
+		if !c08Compare(w, expect, fmt.Sprintf("right after the %s of %s", op, clipAny(v.v))) {
+			return
+		}
+		if !w.tick() || !c08Compare(w, expect, fmt.Sprintf("after the flush that follows the %s of %s", op, clipAny(v.v))) {
 			return
 		}
 	}
